@@ -899,6 +899,52 @@ async fn c27_two_readers(ctx: Ctx) {
     let _ = ra;
 }
 
+/// two application tasks write the same instance while the writer is blocked (KEEP_LAST(1), the only reader silent): each write
+/// blocks until max_blocking_time and returns Timeout (or succeeds once the sample in the way is acknowledged) - no other
+/// error, and not before the blocking time has elapsed; a blocked write on another instance must not be disturbed either
+async fn c27_concurrent_writes(ctx: Ctx, same_instance: bool) {
+    let f = ctx.factory("", None);
+    let n1 = node::<KeyedData>(&f, 0, "T").await;
+    let n2 = node::<KeyedData>(&f, 0, "T").await;
+    let w = n1.publisher.create_datawriter::<KeyedData>(&n1.topic, QosKind::Specific(reliable_w(HistoryQosPolicyKind::KeepLast(1), Some(400))), NO_LISTENER, NO_STATUS).await.expect("w");
+    let r = n2.subscriber.create_datareader::<KeyedData>(&n2.topic, QosKind::Specific(reliable_r(HistoryQosPolicyKind::KeepAll)), NO_LISTENER, NO_STATUS).await.expect("r");
+    if !wait_pub_matched(&ctx, &w, 1, 3000).await || !wait_sub_matched(&ctx, &r, 1, 3000).await {
+        ctx.violation("setup/no-match", "no match");
+        return;
+    }
+    // the reader goes silent: nothing is acknowledged any more
+    crate::sim::with(|wd| wd.net.filter = Some(Box::new(|d, _m| !d.meta)));
+    w.write(sample(1, 0, 8), None).await.expect("first write of instance 1");
+    if !same_instance {
+        w.write(sample(2, 0, 8), None).await.expect("first write of instance 2");
+    }
+    let results: Arc<Mutex<Vec<(u8, String, i64)>>> = Arc::new(Mutex::new(vec![]));
+    for task in 0..2u8 {
+        let (w, ctx2, res) = (w.clone(), ctx.clone(), results.clone());
+        let id = if same_instance { 1 } else { 1 + task };
+        ctx.spawn(async move {
+            let t0 = ctx2.now();
+            let r = w.write(sample(id, 1 + task as u32, 8), None).await;
+            let took = (ctx2.now() - t0) / crate::sim::MS;
+            res.lock().unwrap().push((task, format!("{:?}", r.as_ref().map(|_| ())), took));
+        });
+    }
+    ctx.sleep_ms(1500).await;
+    let res = results.lock().unwrap().clone();
+    ctx.obs(format!("same_instance={same_instance} results={res:?}"));
+    let tag = if same_instance { "same-instance" } else { "two-instances" };
+    if res.len() != 2 {
+        ctx.violation(format!("concurrent-writes/{tag}/write-never-returned"), format!("1.5 s after two concurrent writes (max_blocking_time 400 ms) only {} returned: {res:?}", res.len()));
+    }
+    for (task, r, took) in &res {
+        if r != "Err(Timeout)" {
+            ctx.violation(format!("concurrent-writes/{tag}/returned={}", r.split('(').nth(1).unwrap_or(r).trim_end_matches(')').split('(').next().unwrap_or("")), format!("task {task}: write on a blocked KEEP_LAST(1) writer returned {r} after {took} ms; nothing was acknowledged, so it must block for max_blocking_time (400 ms) and return Timeout"));
+        } else if *took < 395 || *took > 400 + 50 + 10 {
+            ctx.violation(format!("concurrent-writes/{tag}/timeout-at-wrong-time"), format!("task {task}: Timeout after {took} ms, max_blocking_time is 400 ms"));
+        }
+    }
+}
+
 // ---- C33 (writer side) -----------------------------------------------------------------------------------------------
 type WLog = Arc<Mutex<Vec<String>>>;
 struct LvW(WLog);
@@ -1144,7 +1190,12 @@ pub fn extra(id: &str) -> Vec<Scenario> {
                 add(n.into(), Scenario::new(format!("C16.audit[participant-with-two-readers-departs,{n}]"), 0, move |ctx| c16_two_readers_depart(ctx, k)));
             }
         }
-        "C27" => add("two".into(), Scenario::new("C27.audit[two-reliable-readers-one-silent]".to_string(), 0, c27_two_readers)),
+        "C27" => {
+            add("two".into(), Scenario::new("C27.audit[two-reliable-readers-one-silent]".to_string(), 0, c27_two_readers));
+            for si in [true, false] {
+                add("conc".into(), Scenario::new(format!("C27.audit[concurrent-writes,same_instance={si}]"), 0, move |ctx| c27_concurrent_writes(ctx, si)));
+            }
+        }
         "C37" => add("topic".into(), Scenario::new("C37.audit[topic-publisher-subscriber]".to_string(), 0, c37_topic_publisher)),
         "C26" => {
             add("rhs".into(), Scenario::new("C26.audit[second-parameter]".to_string(), 0, |ctx| c26_rhs(ctx, "x <= %1", &["100", "5"], |d| d.x <= 5)));
